@@ -1,22 +1,32 @@
 package main
 
-// c03sym: a small path-sensitive abstract interpreter over go/ssa used by the
-// C03 rules. It never runs repository code: it walks the SSA of a function
-// under a *scenario* (algorithm name, lengths of the byte-slice arguments,
-// what the key object reports, values of a few struct fields) and enumerates
-// the abstract outcomes (returned values / panics) together with the
-// primitive operations reached on each path.
+// c03sym: a path-sensitive abstract interpreter over go/ssa used by the C03
+// rules. It never runs repository code: it walks the SSA of a function under a
+// *scenario* (algorithm name, lengths of the byte-slice arguments, what the
+// key object reports, optionally symbolic contents of one buffer) and
+// enumerates the abstract outcomes (returned values / panics) together with
+// the primitive operations reached on each path.
 //
-// Abstract values: known strings / ints / bools, slices with a known length,
-// nil, non-nil (with the identity of the package-level variable it was loaded
-// from, which is how sentinels are recognised), tuples, addresses of locals
-// and of struct fields. Everything else is Unknown; a branch on an Unknown
+// Abstract values: known strings / ints / bools, slices with a known length
+// (optionally with a known backing store, a constant fill, or symbolic bytes),
+// nil, non-nil (with the identity of the package-level variable or function it
+// denotes, which is how sentinels and function values are recognised), tuples,
+// structs, maps, addresses of locals / fields / elements, interface values
+// with their dynamic type. Everything else is Unknown; a branch on an Unknown
 // condition forks the path (both outcomes are explored; `x == nil` tests
 // refine x on each side). An Unknown that was computed FROM scenario facts by
 // an operation the interpreter has no model for is *tainted*: a fork on a
-// tainted condition marks the path imprecise, and rules that need "all
-// outcomes" turn UNDECIDED instead of reporting a violation that rests on an
-// imprecise path.
+// tainted condition, a call whose target cannot be resolved, a `go` statement
+// mark the path imprecise, and rules turn UNDECIDED instead of reporting a
+// violation that rests on an imprecise path.
+//
+// Calls are followed: static calls, closures (with their captured variables),
+// bound methods, function values whose target is known on the path (including
+// values taken from local or package-level tables), interface calls whose
+// dynamic type is known, deferred calls (run at every exit, LIFO). Memory
+// (locals whose address is taken, heap objects, backing arrays, maps,
+// package-level variables as initialised by the package initialiser) is
+// per-path and flows into and out of callees.
 
 import (
 	"fmt"
@@ -37,26 +47,75 @@ const (
 	c03Str
 	c03Int
 	c03Bool
-	c03Slice    // non-nil slice / array pointer with length I (-1 = unknown length)
+	c03Slice    // non-nil slice with length I (-1 = unknown); Ref/Off = backing store and offset, if known
 	c03Nil      // nil of any nillable type (a nil slice has length 0)
-	c03NonNil   // non-nil pointer / interface / func; G = package-level variable it was loaded from
+	c03NonNil   // non-nil pointer / interface / func; G = package-level variable or function it denotes
 	c03Tuple    // T
-	c03Cell     // address of a local (Ref)
-	c03FieldPtr // address of a struct field (F); Ref = the local struct it belongs to, if known
-	c03Struct   // struct value with known fields M (field name -> value)
+	c03Cell     // address of a local / heap object / package-level variable (Ref)
+	c03FieldPtr // address of a struct field or element (Ref+Path if the object is known; F = last field)
+	c03Struct   // struct / array value with known members M (field name or "#index" -> value)
+	c03MapV     // map with contents in mem[Ref]
+	c03Sym      // unknown byte number I of the scenario's symbolic buffer
 )
 
+// c03Cmp: an undecided boolean (or 0/1 int) that is the result of comparing
+// bytes [Lo,Hi) of the symbolic buffer with the value Val.
+type c03Cmp struct {
+	Lo, Hi, Val int64
+	Neg         bool // the value is true when the bytes DIFFER
+	AsInt       bool // 1 = equal, 0 = different (subtle.ConstantTimeCompare)
+}
+
 type c03V struct {
-	K     c03Kind
-	S     string
-	I     int64
-	B     bool
-	Taint bool
-	G     string
-	T     []c03V
-	Ref   *ssa.Alloc
-	F     FieldID
-	M     map[string]c03V
+	K        c03Kind
+	S        string
+	I        int64
+	B        bool
+	Taint    bool
+	G        string
+	T        []c03V
+	Ref      ssa.Value
+	Path     []string
+	F        FieldID
+	M        map[string]c03V
+	Off      int64
+	Fn       *ssa.Function
+	FV       []c03V
+	Ty       types.Type
+	FillOK   bool  // bytes [TailFrom, len) all equal Fill
+	Fill     int64 // (may itself be unknown: FillSym)
+	TailFrom int64
+	Cmp      *c03Cmp
+	Segs     []int64 // Slice built by append: lengths of the concatenated pieces, in order
+}
+
+// c03Store is a synthetic backing store (result of append / Clone with known elements).
+type c03Store struct{ id int }
+
+var c03StoreSeq int
+
+func c03NewStore() *c03Store                      { c03StoreSeq++; return &c03Store{id: c03StoreSeq} }
+func (s *c03Store) Name() string                  { return fmt.Sprintf("store%d", s.id) }
+func (s *c03Store) String() string                { return s.Name() }
+func (s *c03Store) Type() types.Type              { return types.Typ[types.Invalid] }
+func (s *c03Store) Parent() *ssa.Function         { return nil }
+func (s *c03Store) Referrers() *[]ssa.Instruction { return nil }
+func (s *c03Store) Pos() token.Pos                { return token.NoPos }
+
+func c03RefName(v ssa.Value) string {
+	if v == nil {
+		return ""
+	}
+	if g, ok := v.(*ssa.Global); ok {
+		return c03GlobalName(g)
+	}
+	if _, ok := v.(*c03Store); ok {
+		return "store"
+	}
+	if p := v.Parent(); p != nil {
+		return p.Name() + "." + v.Name()
+	}
+	return v.Name()
 }
 
 func (v c03V) String() string {
@@ -68,17 +127,31 @@ func (v c03V) String() string {
 	case c03Bool:
 		return fmt.Sprintf("%v", v.B)
 	case c03Slice:
-		if v.I < 0 {
-			return "[]byte(len ?)"
+		s := "[]byte(len ?)"
+		if v.I >= 0 {
+			s = fmt.Sprintf("[]byte(len %d)", v.I)
 		}
-		return fmt.Sprintf("[]byte(len %d)", v.I)
+		if v.Ref != nil {
+			s += fmt.Sprintf("@%s+%d", c03RefName(v.Ref), v.Off)
+		}
+		if v.FillOK {
+			s += fmt.Sprintf("fill[%d:]=%d", v.TailFrom, v.Fill)
+		}
+		if len(v.Segs) > 0 {
+			s += fmt.Sprint(v.Segs)
+		}
+		return s
 	case c03Nil:
 		return "nil"
 	case c03NonNil:
+		s := "non-nil"
 		if v.G != "" {
-			return v.G
+			s = v.G
 		}
-		return "non-nil"
+		for _, b := range v.FV {
+			s += "[" + b.String() + "]"
+		}
+		return s
 	case c03Tuple:
 		var s []string
 		for _, e := range v.T {
@@ -86,9 +159,16 @@ func (v c03V) String() string {
 		}
 		return "(" + strings.Join(s, ", ") + ")"
 	case c03Cell:
-		return "&local"
+		return "&" + c03RefName(v.Ref)
 	case c03FieldPtr:
+		if v.Ref != nil {
+			return "&" + c03RefName(v.Ref) + "." + strings.Join(v.Path, ".")
+		}
 		return "&" + v.F.String()
+	case c03MapV:
+		return "map@" + c03RefName(v.Ref)
+	case c03Sym:
+		return fmt.Sprintf("byte[%d]", v.I)
 	case c03Struct:
 		var ks []string
 		for k := range v.M {
@@ -102,6 +182,9 @@ func (v c03V) String() string {
 		}
 		sb.WriteString("}")
 		return sb.String()
+	}
+	if v.Cmp != nil {
+		return fmt.Sprintf("cmp[%d:%d]=%d/%v", v.Cmp.Lo, v.Cmp.Hi, v.Cmp.Val, v.Cmp.Neg)
 	}
 	if v.Taint {
 		return "?!"
@@ -137,7 +220,9 @@ func c03Len(v c03V) (int64, bool) {
 }
 
 // c03Event is a primitive operation (modelled external call, or any call into
-// the module) reached on a path.
+// the module) reached on a path; also "fork" (operands of an undecided
+// comparison), "cmpbytes" (bytes of the symbolic buffer compared on a taken
+// branch: lo, hi, value, equal), "readbytes" (bytes of it read: lo, hi).
 type c03Event struct {
 	Name string // "pkgpath.Func" / "pkgpath.Type.Method"
 	Args []c03V
@@ -150,6 +235,7 @@ type c03Outcome struct {
 	Events    []c03Event
 	Imprecise bool
 	Pos       token.Pos
+	Mem       map[ssa.Value]c03V // memory at the end of the path (objects reachable by the caller)
 }
 
 func (o c03Outcome) Res0() c03V {
@@ -168,14 +254,13 @@ func (o *c03Outcome) Has(name string) bool {
 	return false
 }
 
-// c03Scenario: what the environment (key object, AEAD object, struct fields)
-// reports in this run.
+// c03Scenario: what the environment (key object, AEAD object) reports in this run.
 type c03Scenario struct {
 	KeyType   string                                                  // jwk.Key.KeyType(); "" = unknown
 	KeyLen    int64                                                   // length of the bytes key.Raw(&[]byte) stores; -1 = Raw outcome unknown
 	NonceSize int64                                                   // cipher.AEAD.NonceSize(); -1 unknown
 	Overhead  int64                                                   // cipher.AEAD.Overhead(); -1 unknown
-	Fields    map[FieldID]c03V                                        // loads of struct fields
+	Fields    map[FieldID]c03V                                        // loads of fields of objects the interpreter does not know
 	Fail      bool                                                    // authenticating / verifying primitives report failure
 	SealPad   bool                                                    // the AEAD pads the plaintext to whole AES blocks before sealing (CBC-HMAC)
 	RawFails  bool                                                    // jwk key objects refuse to export themselves as the requested Go type (wrong kind of key)
@@ -193,27 +278,37 @@ type c03Exec struct {
 }
 
 func newC03Exec(p *Prog, sc *c03Scenario) *c03Exec {
+	if sc.Fields == nil {
+		sc.Fields = map[FieldID]c03V{}
+	}
 	return &c03Exec{p: p, sc: sc, memo: map[string][]c03Outcome{}, active: map[string]bool{}}
 }
 
 const (
-	c03MaxSteps = 400000
+	c03MaxSteps = 600000
 	c03MaxPaths = 4000
 )
+
+type c03Deferred struct {
+	site ssa.CallInstruction
+	fnv  c03V
+	args []c03V
+}
 
 type c03State struct {
 	blk, prev *ssa.BasicBlock
 	idx       int
 	regs      map[ssa.Value]c03V
-	mem       map[*ssa.Alloc]c03V
+	mem       map[ssa.Value]c03V
 	events    []c03Event
 	imprecise bool
 	forks     map[*ssa.If][2]int
+	defers    []c03Deferred
 }
 
 func (s *c03State) clone() *c03State {
 	n := &c03State{blk: s.blk, prev: s.prev, idx: s.idx, imprecise: s.imprecise,
-		regs: make(map[ssa.Value]c03V, len(s.regs)+8), mem: make(map[*ssa.Alloc]c03V, len(s.mem)+2), forks: make(map[*ssa.If][2]int, len(s.forks)+1)}
+		regs: make(map[ssa.Value]c03V, len(s.regs)+8), mem: make(map[ssa.Value]c03V, len(s.mem)+2), forks: make(map[*ssa.If][2]int, len(s.forks)+1)}
 	for k, v := range s.regs {
 		n.regs[k] = v
 	}
@@ -224,32 +319,83 @@ func (s *c03State) clone() *c03State {
 		n.forks[k] = v
 	}
 	n.events = append([]c03Event(nil), s.events...)
+	n.defers = append([]c03Deferred(nil), s.defers...)
 	return n
 }
 
-func c03Key(fn *ssa.Function, args []c03V) string {
+// c03Reach collects the memory objects reachable from the given values.
+func c03Reach(mem map[ssa.Value]c03V, vals []c03V) map[ssa.Value]c03V {
+	out := map[ssa.Value]c03V{}
+	var walk func(v c03V)
+	walk = func(v c03V) {
+		if v.Ref != nil {
+			if _, seen := out[v.Ref]; !seen {
+				if mv, ok := mem[v.Ref]; ok {
+					out[v.Ref] = mv
+					walk(mv)
+				}
+			}
+		}
+		for _, e := range v.T {
+			walk(e)
+		}
+		for _, e := range v.FV {
+			walk(e)
+		}
+		for _, e := range v.M {
+			walk(e)
+		}
+	}
+	for _, v := range vals {
+		walk(v)
+	}
+	return out
+}
+
+func c03MemString(mem map[ssa.Value]c03V) string {
+	var ks []string
+	for k, v := range mem {
+		ks = append(ks, c03RefName(k)+"="+v.String())
+	}
+	sort.Strings(ks)
+	return strings.Join(ks, ";")
+}
+
+func c03Key(fn *ssa.Function, args, fv []c03V, mem map[ssa.Value]c03V) string {
 	var sb strings.Builder
 	sb.WriteString(fn.String())
 	for _, a := range args {
 		sb.WriteString("|")
 		sb.WriteString(a.String())
-		if a.K == c03Cell {
-			sb.WriteString(fmt.Sprintf("%p", a.Ref))
+		if a.Ty != nil {
+			sb.WriteString(":" + a.Ty.String())
 		}
 	}
+	for _, a := range fv {
+		sb.WriteString("^")
+		sb.WriteString(a.String())
+	}
+	sb.WriteString("#")
+	sb.WriteString(c03MemString(mem))
 	return sb.String()
 }
 
 // Run enumerates the abstract outcomes of fn called with args.
 func (x *c03Exec) Run(fn *ssa.Function, args []c03V) []c03Outcome {
+	return x.RunWith(fn, args, nil, nil)
+}
+
+// RunWith: like Run, with the values of the free variables (closures) and an
+// initial memory (objects the arguments point to).
+func (x *c03Exec) RunWith(fn *ssa.Function, args, fv []c03V, mem map[ssa.Value]c03V) []c03Outcome {
 	if len(fn.Blocks) == 0 {
 		return []c03Outcome{{Res: []c03V{c03U()}}}
 	}
-	key := c03Key(fn, args)
+	key := c03Key(fn, args, fv, mem)
 	if o, ok := x.memo[key]; ok {
 		return o
 	}
-	if x.active[key] || x.depth > 14 {
+	if x.active[key] || x.depth > 16 {
 		x.Truncated = true
 		return nil
 	}
@@ -257,10 +403,18 @@ func (x *c03Exec) Run(fn *ssa.Function, args []c03V) []c03Outcome {
 	x.depth++
 	defer func() { x.depth--; delete(x.active, key) }()
 
-	st := &c03State{blk: fn.Blocks[0], regs: map[ssa.Value]c03V{}, mem: map[*ssa.Alloc]c03V{}, forks: map[*ssa.If][2]int{}}
+	st := &c03State{blk: fn.Blocks[0], regs: map[ssa.Value]c03V{}, mem: map[ssa.Value]c03V{}, forks: map[*ssa.If][2]int{}}
+	for k, v := range mem {
+		st.mem[k] = v
+	}
 	for i, pa := range fn.Params {
 		if i < len(args) {
 			st.regs[pa] = args[i]
+		}
+	}
+	for i, f := range fn.FreeVars {
+		if i < len(fv) {
+			st.regs[f] = fv[i]
 		}
 	}
 	var outs []c03Outcome
@@ -283,13 +437,13 @@ func (x *c03Exec) Run(fn *ssa.Function, args []c03V) []c03Outcome {
 	return outs
 }
 
-// c03Dedup merges outcomes that return the same abstract values (their event
-// lists are united): the caller continues identically after them.
+// c03Dedup merges outcomes that return the same abstract values and memory
+// (their event lists are united): the caller continues identically after them.
 func c03Dedup(outs []c03Outcome) []c03Outcome {
 	idx := map[string]int{}
 	var res []c03Outcome
 	for _, o := range outs {
-		k := fmt.Sprintf("%v|%s|%v|%v", o.Res, o.Panic, o.Imprecise, o.Pos)
+		k := fmt.Sprintf("%v|%s|%v|%v|%s", o.Res, o.Panic, o.Imprecise, o.Pos, c03MemString(c03Reach(o.Mem, o.Res)))
 		if j, ok := idx[k]; ok {
 			have := map[string]bool{}
 			for _, ev := range res[j].Events {
@@ -311,6 +465,16 @@ func c03Dedup(outs []c03Outcome) []c03Outcome {
 	return res
 }
 
+func (x *c03Exec) outcome(s *c03State, pos token.Pos) c03Outcome {
+	return c03Outcome{Events: s.events, Imprecise: s.imprecise, Pos: pos, Mem: s.mem}
+}
+
+func (x *c03Exec) panicOutcome(s *c03State, msg string, in ssa.Instruction) c03Outcome {
+	o := x.outcome(s, instrPos(in))
+	o.Panic = msg + " at " + x.p.Pos(instrPos(in))
+	return o
+}
+
 // runPath advances one path until it ends (return/panic) or forks.
 func (x *c03Exec) runPath(fn *ssa.Function, s *c03State) ([]*c03State, []c03Outcome) {
 	for {
@@ -325,13 +489,16 @@ func (x *c03Exec) runPath(fn *ssa.Function, s *c03State) ([]*c03State, []c03Outc
 		}
 		switch i := in.(type) {
 		case *ssa.Return:
-			o := c03Outcome{Events: s.events, Imprecise: s.imprecise, Pos: i.Pos()}
+			o := x.outcome(s, i.Pos())
 			for _, r := range i.Results {
 				o.Res = append(o.Res, x.eval(s, r))
 			}
 			return nil, []c03Outcome{o}
 		case *ssa.Panic:
-			return nil, []c03Outcome{{Panic: "explicit panic at " + x.p.Pos(instrPos(i)), Explicit: true, Events: s.events, Imprecise: s.imprecise, Pos: instrPos(i)}}
+			o := x.panicOutcome(s, "explicit panic", i)
+			o.Panic = "explicit panic at " + x.p.Pos(instrPos(i))
+			o.Explicit = true
+			return nil, []c03Outcome{o}
 		case *ssa.Jump:
 			s.prev, s.blk, s.idx = s.blk, s.blk.Succs[0], 0
 			continue
@@ -367,7 +534,10 @@ func (x *c03Exec) runPath(fn *ssa.Function, s *c03State) ([]*c03State, []c03Outc
 				if c.Taint {
 					n.imprecise = true
 				}
-				if bo, ok := i.Cond.(*ssa.BinOp); ok && cnt[0]+cnt[1] == 0 {
+				if c.Cmp != nil && !c.Cmp.AsInt {
+					equal := (k == 0) != c.Cmp.Neg
+					n.events = append(n.events, c03Event{Name: "cmpbytes", Args: []c03V{c03IntV(c.Cmp.Lo), c03IntV(c.Cmp.Hi), c03IntV(c.Cmp.Val), c03BoolV(equal)}})
+				} else if bo, ok := i.Cond.(*ssa.BinOp); ok && cnt[0]+cnt[1] == 0 {
 					// what an undecided comparison compares (lets rules see whether a scenario value reaches a test)
 					n.events = append(n.events, c03Event{Name: "fork", Args: []c03V{x.eval(s, bo.X), x.eval(s, bo.Y)}})
 				}
@@ -377,13 +547,31 @@ func (x *c03Exec) runPath(fn *ssa.Function, s *c03State) ([]*c03State, []c03Outc
 			}
 			return next, nil
 		case *ssa.Call:
-			next, out, cont := x.call(fn, s, i)
+			cc := i.Common()
+			fnv, args := x.callOperands(s, cc)
+			next, out, cont := x.call(s, i, fnv, args, i, s.idx+1)
 			if !cont {
 				return next, out
 			}
+		case *ssa.Defer:
+			fnv, args := x.callOperands(s, i.Common())
+			s.defers = append(s.defers, c03Deferred{site: i, fnv: fnv, args: args})
+		case *ssa.RunDefers:
+			if n := len(s.defers); n > 0 {
+				d := s.defers[n-1]
+				s.defers = s.defers[:n-1]
+				// stay on the RunDefers instruction until the stack is empty
+				next, out, cont := x.call(s, d.site, d.fnv, d.args, nil, s.idx)
+				if !cont {
+					return next, out
+				}
+				continue
+			}
+		case *ssa.Go:
+			s.imprecise = true
 		default:
 			if msg := x.step(s, in); msg != "" {
-				return nil, []c03Outcome{{Panic: msg + " at " + x.p.Pos(instrPos(in)), Events: s.events, Imprecise: s.imprecise, Pos: instrPos(in)}}
+				return nil, []c03Outcome{x.panicOutcome(s, msg, in)}
 			}
 		}
 		s.idx++
@@ -430,7 +618,7 @@ func (x *c03Exec) eval(s *c03State, v ssa.Value) c03V {
 			return c03NilV()
 		}
 		if c.Value == nil {
-			return c03U()
+			return c03ZeroOf(c.Type())
 		}
 		switch c.Value.Kind() {
 		case constant.String:
@@ -444,9 +632,9 @@ func (x *c03Exec) eval(s *c03State, v ssa.Value) c03V {
 		}
 		return c03U()
 	case *ssa.Function:
-		return c03V{K: c03NonNil, G: "func:" + c.String()}
+		return c03V{K: c03NonNil, G: "func:" + c.String(), Fn: c}
 	case *ssa.Global:
-		return c03V{K: c03NonNil, G: "&" + c03GlobalName(c)}
+		return c03V{K: c03Cell, Ref: c}
 	}
 	if r, ok := s.regs[v]; ok {
 		return r
@@ -454,42 +642,93 @@ func (x *c03Exec) eval(s *c03State, v ssa.Value) c03V {
 	return c03U()
 }
 
-// globalSliceLen: length of a package-level slice variable that is stored to
-// exactly once in the whole module, by its package initialiser, from a slice
-// of a fixed-size array (composite literal); -1 otherwise.
-func (x *c03Exec) globalSliceLen(g *ssa.Global) int64 {
-	n, stores := int64(-1), 0
-	for _, fn := range x.p.Funcs {
-		allInstrs(fn, func(in ssa.Instruction) {
-			st, ok := in.(*ssa.Store)
-			if !ok || st.Addr != ssa.Value(g) {
-				return
-			}
-			stores++
-			if fn.Name() != "init" || fn.Parent() != nil {
-				stores++ // reassigned at run time: unknown
-				return
-			}
-			if sl, ok := st.Val.(*ssa.Slice); ok && sl.Low == nil && sl.High == nil {
-				if pt, ok := sl.X.Type().Underlying().(*types.Pointer); ok {
-					if at, ok := pt.Elem().Underlying().(*types.Array); ok {
-						n = at.Len()
-					}
-				}
-			}
-		})
-	}
-	if stores != 1 {
-		return -1
-	}
-	return n
-}
-
 func c03GlobalName(g *ssa.Global) string {
 	if g.Pkg != nil {
 		return g.Pkg.Pkg.Path() + "." + g.Name()
 	}
 	return g.Name()
+}
+
+// ---- package-level variables ----------------------------------------------------
+
+type c03InitInfo struct {
+	mem map[ssa.Value]c03V
+	ok  bool
+}
+
+var c03InitCache = map[*ssa.Package]*c03InitInfo{}
+var c03StoreCount = map[*Prog]map[*ssa.Global]int{}
+
+// globalValue: the value a package-level variable has after package
+// initialisation, provided no function other than the initialiser stores to
+// it. Interface/pointer-typed variables (the error sentinels) are non-nil
+// objects identified by their name.
+func (x *c03Exec) globalValue(s *c03State, g *ssa.Global) c03V {
+	if g.Name() == "init$guard" {
+		return c03BoolV(false)
+	}
+	elem := g.Type().Underlying().(*types.Pointer).Elem()
+	switch elem.Underlying().(type) {
+	case *types.Interface, *types.Pointer:
+		return c03V{K: c03NonNil, G: c03GlobalName(g)}
+	}
+	if g.Pkg == nil || !strings.HasPrefix(g.Pkg.Pkg.Path(), x.p.ModPath) {
+		return c03U()
+	}
+	cnt := c03StoreCount[x.p]
+	if cnt == nil {
+		cnt = map[*ssa.Global]int{}
+		for _, fn := range x.p.Funcs {
+			if fn.Name() == "init" && fn.Parent() == nil {
+				continue
+			}
+			allInstrs(fn, func(in ssa.Instruction) {
+				if st, ok := in.(*ssa.Store); ok {
+					if gg, ok := st.Addr.(*ssa.Global); ok {
+						cnt[gg]++
+					}
+				}
+				// address taken: may be written through the pointer
+				if c, ok := in.(ssa.CallInstruction); ok {
+					for _, a := range c.Common().Args {
+						if gg, ok := a.(*ssa.Global); ok {
+							cnt[gg]++
+						}
+					}
+				}
+			})
+		}
+		c03StoreCount[x.p] = cnt
+	}
+	if cnt[g] > 0 {
+		return c03U()
+	}
+	info := c03InitCache[g.Pkg]
+	if info == nil {
+		info = &c03InitInfo{}
+		c03InitCache[g.Pkg] = info
+		if init := g.Pkg.Func("init"); init != nil && len(init.Blocks) > 0 {
+			ix := newC03Exec(x.p, &c03Scenario{KeyLen: -1, NonceSize: -1, Overhead: -1})
+			outs := ix.Run(init, nil)
+			if len(outs) == 1 && outs[0].Panic == "" && !ix.Truncated {
+				info.mem, info.ok = outs[0].Mem, true
+			}
+		}
+	}
+	if !info.ok {
+		return c03U()
+	}
+	v, ok := info.mem[g]
+	if !ok {
+		return c03ZeroOf(elem)
+	}
+	// bring the objects the value refers to (backing arrays, maps) into this path's memory
+	for k, mv := range c03Reach(info.mem, []c03V{v}) {
+		if _, have := s.mem[k]; !have {
+			s.mem[k] = mv
+		}
+	}
+	return v
 }
 
 func c03ZeroOf(t types.Type) c03V {
@@ -502,6 +741,8 @@ func c03ZeroOf(t types.Type) c03V {
 			m[u.Field(k).Name()] = c03ZeroOf(u.Field(k).Type())
 		}
 		return c03V{K: c03Struct, M: m}
+	case *types.Array:
+		return c03V{K: c03Struct, M: map[string]c03V{}}
 	case *types.Basic:
 		switch {
 		case u.Info()&types.IsString != 0:
@@ -515,6 +756,105 @@ func c03ZeroOf(t types.Type) c03V {
 	return c03U()
 }
 
+// ---- memory paths -----------------------------------------------------------------
+
+func c03GetPath(v c03V, path []string) (c03V, bool) {
+	for _, p := range path {
+		if v.K != c03Struct {
+			return c03U(), false
+		}
+		e, ok := v.M[p]
+		if !ok {
+			return c03U(), false
+		}
+		v = e
+	}
+	return v, true
+}
+
+func c03SetPath(v c03V, path []string, val c03V) c03V {
+	if len(path) == 0 {
+		return val
+	}
+	nm := map[string]c03V{}
+	if v.K == c03Struct {
+		for k, e := range v.M {
+			nm[k] = e
+		}
+	}
+	if path[0] == "#?" {
+		// store through an unknown index: every element becomes unknown
+		for k := range nm {
+			if strings.HasPrefix(k, "#") && k != "#sym" {
+				delete(nm, k)
+			}
+		}
+		return c03V{K: c03Struct, M: nm}
+	}
+	nm[path[0]] = c03SetPath(nm[path[0]], path[1:], val)
+	return c03V{K: c03Struct, M: nm}
+}
+
+func c03ExtPath(path []string, e string) []string {
+	return append(append(make([]string, 0, len(path)+1), path...), e)
+}
+
+// havocElems forgets the element values of a backing store (it was written by code the interpreter does not follow).
+func (s *c03State) havocElems(ref ssa.Value) {
+	cur, ok := s.mem[ref]
+	if !ok || cur.K != c03Struct {
+		return
+	}
+	nm := map[string]c03V{}
+	for k, e := range cur.M {
+		if !strings.HasPrefix(k, "#") || k == "#sym" {
+			nm[k] = e
+		}
+	}
+	s.mem[ref] = c03V{K: c03Struct, M: nm}
+}
+
+func (x *c03Exec) load(s *c03State, a c03V, at ssa.Instruction) (c03V, string) {
+	switch a.K {
+	case c03Cell:
+		if v, ok := s.mem[a.Ref]; ok {
+			return v, ""
+		}
+		if g, ok := a.Ref.(*ssa.Global); ok {
+			v := x.globalValue(s, g)
+			return v, ""
+		}
+		return c03U(), ""
+	case c03FieldPtr:
+		if a.Ref != nil {
+			base, ok := s.mem[a.Ref]
+			if !ok {
+				if g, isG := a.Ref.(*ssa.Global); isG {
+					base = x.globalValue(s, g)
+				}
+			}
+			if v, ok := c03GetPath(base, a.Path); ok {
+				return v, ""
+			}
+			if base.K == c03Struct && len(a.Path) == 1 && strings.HasPrefix(a.Path[0], "#") && a.Path[0] != "#?" {
+				if _, sym := base.M["#sym"]; sym {
+					n, _ := strconv.ParseInt(a.Path[0][1:], 10, 64)
+					s.events = append(s.events, c03Event{Name: "readbytes", Args: []c03V{c03IntV(n), c03IntV(n + 1)}})
+					return c03V{K: c03Sym, I: n}, ""
+				}
+			}
+			return c03U(), ""
+		}
+		if fv, ok := x.sc.Fields[a.F]; ok {
+			return fv, ""
+		}
+		return c03U(), ""
+	case c03Nil:
+		return c03U(), "nil pointer dereference"
+	}
+	return c03U(), ""
+}
+
 // step executes a non-control, non-call instruction; returns a panic message or "".
 func (x *c03Exec) step(s *c03State, in ssa.Instruction) string {
 	switch i := in.(type) {
@@ -523,19 +863,11 @@ func (x *c03Exec) step(s *c03State, in ssa.Instruction) string {
 		s.mem[i] = c03ZeroOf(i.Type().Underlying().(*types.Pointer).Elem())
 	case *ssa.Store:
 		a := x.eval(s, i.Addr)
-		if a.K == c03Cell {
+		switch {
+		case a.K == c03Cell:
 			s.mem[a.Ref] = x.eval(s, i.Val)
-		}
-		if a.K == c03FieldPtr && a.Ref != nil {
-			cur := s.mem[a.Ref]
-			nm := map[string]c03V{}
-			if cur.K == c03Struct {
-				for k, v := range cur.M {
-					nm[k] = v
-				}
-			}
-			nm[a.F.Field] = x.eval(s, i.Val)
-			s.mem[a.Ref] = c03V{K: c03Struct, M: nm}
+		case a.K == c03FieldPtr && a.Ref != nil:
+			s.mem[a.Ref] = c03SetPath(s.mem[a.Ref], a.Path, x.eval(s, i.Val))
 		}
 	case *ssa.Phi:
 		val := c03U()
@@ -549,54 +881,20 @@ func (x *c03Exec) step(s *c03State, in ssa.Instruction) string {
 		xv := x.eval(s, i.X)
 		switch i.Op {
 		case token.MUL:
-			switch xv.K {
-			case c03Cell:
-				s.regs[i] = s.mem[xv.Ref]
-			case c03FieldPtr:
-				if xv.Ref != nil {
-					if st := s.mem[xv.Ref]; st.K == c03Struct {
-						if fv, ok := st.M[xv.F.Field]; ok {
-							s.regs[i] = fv
-							break
-						}
-					}
-					s.regs[i] = c03U()
-				} else if fv, ok := x.sc.Fields[xv.F]; ok {
-					s.regs[i] = fv
-				} else {
-					s.regs[i] = c03U()
-				}
-			case c03NonNil:
-				if strings.HasPrefix(xv.G, "&") {
-					// load of a package-level variable: interface/pointer-typed ones are
-					// assumed non-nil and never reassigned (sentinels)
-					switch i.Type().Underlying().(type) {
-					case *types.Interface, *types.Pointer:
-						s.regs[i] = c03V{K: c03NonNil, G: xv.G[1:]}
-					case *types.Slice:
-						// package-level slice initialised once from a literal and never reassigned
-						if g, ok := i.X.(*ssa.Global); ok {
-							if n := x.globalSliceLen(g); n >= 0 {
-								s.regs[i] = c03SliceV(n)
-								break
-							}
-						}
-						s.regs[i] = c03U()
-					default:
-						s.regs[i] = c03U()
-					}
-				} else {
-					s.regs[i] = c03U()
-				}
-			case c03Nil:
-				return "nil pointer dereference"
-			default:
-				s.regs[i] = c03U()
+			v, msg := x.load(s, xv, i)
+			if msg != "" {
+				return msg
 			}
+			s.regs[i] = v
 		case token.NOT:
-			if xv.K == c03Bool {
+			switch {
+			case xv.K == c03Bool:
 				s.regs[i] = c03BoolV(!xv.B)
-			} else {
+			case xv.Cmp != nil:
+				c := *xv.Cmp
+				c.Neg = !c.Neg
+				s.regs[i] = c03V{Cmp: &c, Taint: xv.Taint}
+			default:
 				s.regs[i] = c03V{Taint: xv.Taint}
 			}
 		case token.SUB:
@@ -613,6 +911,9 @@ func (x *c03Exec) step(s *c03State, in ssa.Instruction) string {
 		if msg != "" {
 			return msg
 		}
+		if v.K == c03Int {
+			v.I = c03Truncate(v.I, i.Type())
+		}
 		s.regs[i] = v
 	case *ssa.Slice:
 		return x.slice(s, i)
@@ -622,21 +923,45 @@ func (x *c03Exec) step(s *c03State, in ssa.Instruction) string {
 			if n.I < 0 {
 				return fmt.Sprintf("make([]T, %d): len out of range", n.I)
 			}
-			s.regs[i] = c03SliceV(n.I)
+			s.regs[i] = c03V{K: c03Slice, I: n.I, Ref: i}
+			s.mem[i] = c03V{K: c03Struct, M: map[string]c03V{}}
 		} else {
 			s.regs[i] = c03V{K: c03Slice, I: -1, Taint: n.Taint}
 		}
 	case *ssa.Convert:
 		xv := x.eval(s, i.X)
-		if xv.K == c03Int || xv.K == c03Nil {
+		switch {
+		case xv.K == c03Int:
+			if c03IntWidth(i.Type()) > 0 {
+				xv.I = c03Truncate(xv.I, i.Type())
+				s.regs[i] = xv
+			} else if b, ok := i.Type().Underlying().(*types.Basic); ok && b.Info()&types.IsString != 0 {
+				s.regs[i] = c03TaintedU()
+			} else {
+				s.regs[i] = xv
+			}
+		case xv.K == c03Nil:
 			s.regs[i] = xv
-		} else if xv.K == c03Str {
+		case xv.K == c03Sym:
+			if c03IntWidth(i.Type()) >= 8 {
+				s.regs[i] = xv
+			} else {
+				s.regs[i] = c03U()
+			}
+		case xv.K == c03Str:
 			if b, ok := i.Type().Underlying().(*types.Basic); ok && b.Info()&types.IsString != 0 {
 				s.regs[i] = xv
 			} else {
 				s.regs[i] = c03SliceV(int64(len(xv.S)))
 			}
-		} else {
+		case xv.K == c03Slice:
+			// []byte -> string of the same length (contents unknown) or named slice type
+			if _, ok := i.Type().Underlying().(*types.Slice); ok {
+				s.regs[i] = xv
+			} else {
+				s.regs[i] = c03V{Taint: xv.Taint}
+			}
+		default:
 			s.regs[i] = c03V{Taint: xv.Taint}
 		}
 	case *ssa.ChangeType:
@@ -646,17 +971,20 @@ func (x *c03Exec) step(s *c03State, in ssa.Instruction) string {
 	case *ssa.MakeInterface:
 		xv := x.eval(s, i.X)
 		switch xv.K {
-		case c03Cell, c03NonNil, c03FieldPtr:
-			s.regs[i] = xv
 		case c03Unknown:
 			if _, isPtr := i.X.Type().Underlying().(*types.Pointer); isPtr {
-				s.regs[i] = c03U()
+				xv = c03U()
 			} else {
-				s.regs[i] = c03NonNilV()
+				xv = c03NonNilV()
 			}
-		default:
-			s.regs[i] = c03NonNilV() // an interface holding a value is not nil
+		case c03Nil:
+			// a typed nil pointer in an interface is not the nil interface
+			if _, isIface := i.X.Type().Underlying().(*types.Interface); !isIface {
+				xv = c03NonNilV()
+			}
 		}
+		xv.Ty = i.X.Type()
+		s.regs[i] = xv
 	case *ssa.SliceToArrayPointer:
 		s.regs[i] = c03U()
 	case *ssa.Extract:
@@ -667,11 +995,15 @@ func (x *c03Exec) step(s *c03State, in ssa.Instruction) string {
 			s.regs[i] = c03V{Taint: t.Taint}
 		}
 	case *ssa.FieldAddr:
-		fp := c03V{K: c03FieldPtr, F: fieldIDOfAddr(i)}
-		if b := x.eval(s, i.X); b.K == c03Cell {
-			if _, isStruct := b.Ref.Type().Underlying().(*types.Pointer).Elem().Underlying().(*types.Struct); isStruct {
-				fp.Ref = b.Ref
-			}
+		fid := fieldIDOfAddr(i)
+		fp := c03V{K: c03FieldPtr, F: fid}
+		switch b := x.eval(s, i.X); {
+		case b.K == c03Cell:
+			fp.Ref, fp.Path = b.Ref, []string{fid.Field}
+		case b.K == c03FieldPtr && b.Ref != nil:
+			fp.Ref, fp.Path = b.Ref, c03ExtPath(b.Path, fid.Field)
+		case b.K == c03Nil:
+			return "nil pointer dereference"
 		}
 		s.regs[i] = fp
 	case *ssa.Field:
@@ -697,31 +1029,132 @@ func (x *c03Exec) step(s *c03State, in ssa.Instruction) string {
 		if okN && iv.K == c03Int && (iv.I < 0 || iv.I >= n) {
 			return fmt.Sprintf("index out of range [%d] with length %d", iv.I, n)
 		}
-		s.regs[i] = c03U()
+		key := "#?"
+		res := c03V{K: c03FieldPtr}
+		switch {
+		case xv.K == c03Cell:
+			if iv.K == c03Int {
+				key = fmt.Sprintf("#%d", iv.I)
+			}
+			res.Ref, res.Path = xv.Ref, []string{key}
+		case xv.K == c03FieldPtr && xv.Ref != nil:
+			if iv.K == c03Int {
+				key = fmt.Sprintf("#%d", iv.I)
+			}
+			res.Ref, res.Path = xv.Ref, c03ExtPath(xv.Path, key)
+		case xv.K == c03Slice && xv.Ref != nil:
+			if iv.K == c03Int {
+				key = fmt.Sprintf("#%d", xv.Off+iv.I)
+			}
+			res.Ref, res.Path = xv.Ref, []string{key}
+		default:
+			res = c03U()
+		}
+		s.regs[i] = res
 	case *ssa.Index:
 		xv, iv := x.eval(s, i.X), x.eval(s, i.Index)
 		if n, ok := c03Len(xv); ok && iv.K == c03Int && (iv.I < 0 || iv.I >= n) {
 			return fmt.Sprintf("index out of range [%d] with length %d", iv.I, n)
 		}
+		if xv.K == c03Struct && iv.K == c03Int {
+			if e, ok := xv.M[fmt.Sprintf("#%d", iv.I)]; ok {
+				s.regs[i] = e
+				break
+			}
+		}
+		if xv.K == c03Str && iv.K == c03Int {
+			s.regs[i] = c03IntV(int64(xv.S[iv.I]))
+			break
+		}
 		s.regs[i] = c03U()
+	case *ssa.MakeMap:
+		s.regs[i] = c03V{K: c03MapV, Ref: i}
+		s.mem[i] = c03V{K: c03Struct, M: map[string]c03V{}}
+	case *ssa.MapUpdate:
+		mv, kv := x.eval(s, i.Map), x.eval(s, i.Key)
+		if mv.K == c03MapV {
+			if k, ok := c03MapKey(kv); ok {
+				s.mem[mv.Ref] = c03SetPath(s.mem[mv.Ref], []string{k}, x.eval(s, i.Value))
+			} else {
+				s.mem[mv.Ref] = c03SetPath(s.mem[mv.Ref], []string{"#opaque"}, c03BoolV(true))
+			}
+		}
 	case *ssa.Lookup:
-		kv := x.eval(s, i.Index)
-		s.regs[i] = c03V{Taint: kv.K == c03Str || kv.K == c03Int || kv.Taint}
-	case *ssa.TypeAssert:
+		xv, kv := x.eval(s, i.X), x.eval(s, i.Index)
+		var res c03V
+		found, decided := false, false
+		if xv.K == c03Str && kv.K == c03Int && !i.CommaOk {
+			if kv.I < 0 || kv.I >= int64(len(xv.S)) {
+				return fmt.Sprintf("index out of range [%d] with length %d", kv.I, len(xv.S))
+			}
+			s.regs[i] = c03IntV(int64(xv.S[kv.I]))
+			break
+		}
+		if xv.K == c03MapV || xv.K == c03Nil {
+			if k, ok := c03MapKey(kv); ok {
+				cont := s.mem[xv.Ref]
+				if _, opaque := cont.M["#opaque"]; !opaque || xv.K == c03Nil {
+					decided = true
+					if e, ok := cont.M[k]; ok && xv.K == c03MapV {
+						res, found = e, true
+					} else if mt, ok := i.X.Type().Underlying().(*types.Map); ok {
+						res = c03ZeroOf(mt.Elem())
+					}
+				}
+			}
+		}
+		if !decided {
+			res = c03V{Taint: kv.K == c03Str || kv.K == c03Int || kv.Taint}
+			if i.CommaOk {
+				s.regs[i] = c03TupleV(res, c03V{Taint: res.Taint})
+			} else {
+				s.regs[i] = res
+			}
+			break
+		}
 		if i.CommaOk {
-			s.regs[i] = c03TupleV(c03U(), c03U())
+			s.regs[i] = c03TupleV(res, c03BoolV(found))
 		} else {
+			s.regs[i] = res
+		}
+	case *ssa.TypeAssert:
+		xv := x.eval(s, i.X)
+		ok, decided := false, false
+		if xv.Ty != nil {
+			if it, isIface := i.AssertedType.Underlying().(*types.Interface); isIface {
+				ok, decided = types.Implements(xv.Ty, it), true
+			} else {
+				ok, decided = types.Identical(xv.Ty, i.AssertedType), true
+			}
+		} else if xv.K == c03Nil {
+			ok, decided = false, true
+		}
+		switch {
+		case decided && i.CommaOk:
+			if ok {
+				s.regs[i] = c03TupleV(xv, c03BoolV(true))
+			} else {
+				s.regs[i] = c03TupleV(c03ZeroOf(i.AssertedType), c03BoolV(false))
+			}
+		case decided && ok:
+			s.regs[i] = xv
+		case decided:
+			return "interface conversion: type assertion fails"
+		case i.CommaOk:
+			s.regs[i] = c03TupleV(c03U(), c03U())
+		default:
 			s.regs[i] = c03U()
 		}
 	case *ssa.MakeClosure:
-		g := "func:" + i.Fn.String()
+		fn, _ := i.Fn.(*ssa.Function)
+		v := c03V{K: c03NonNil, G: "func:" + i.Fn.String(), Fn: fn}
 		for _, b := range i.Bindings {
-			g += "[" + x.eval(s, b).String() + "]"
+			v.FV = append(v.FV, x.eval(s, b))
 		}
-		s.regs[i] = c03V{K: c03NonNil, G: g}
-	case *ssa.MakeMap, *ssa.MakeChan:
-		s.regs[i.(ssa.Value)] = c03NonNilV()
-	case *ssa.DebugRef, *ssa.RunDefers, *ssa.Defer, *ssa.Go, *ssa.Send, *ssa.MapUpdate:
+		s.regs[i] = v
+	case *ssa.MakeChan:
+		s.regs[i] = c03NonNilV()
+	case *ssa.DebugRef, *ssa.Send:
 		// no effect on the tracked values
 	default:
 		if v, ok := in.(ssa.Value); ok {
@@ -729,6 +1162,41 @@ func (x *c03Exec) step(s *c03State, in ssa.Instruction) string {
 		}
 	}
 	return ""
+}
+
+func c03MapKey(k c03V) (string, bool) {
+	switch k.K {
+	case c03Str:
+		return "s:" + k.S, true
+	case c03Int:
+		return fmt.Sprintf("i:%d", k.I), true
+	case c03Bool:
+		return fmt.Sprintf("b:%v", k.B), true
+	}
+	return "", false
+}
+
+// c03Truncate wraps n to the width and signedness of the integer type t.
+func c03Truncate(n int64, t types.Type) int64 {
+	b, ok := t.Underlying().(*types.Basic)
+	if !ok {
+		return n
+	}
+	switch b.Kind() {
+	case types.Uint8:
+		return int64(uint8(n))
+	case types.Int8:
+		return int64(int8(n))
+	case types.Uint16:
+		return int64(uint16(n))
+	case types.Int16:
+		return int64(int16(n))
+	case types.Uint32:
+		return int64(uint32(n))
+	case types.Int32:
+		return int64(int32(n))
+	}
+	return n
 }
 
 func (x *c03Exec) slice(s *c03State, i *ssa.Slice) string {
@@ -774,7 +1242,19 @@ func (x *c03Exec) slice(s *c03State, i *ssa.Slice) string {
 			return fmt.Sprintf("slice bounds out of range [:%d] with array length %d", hi.I, n)
 		}
 		// for slices the upper bound is the capacity, which is not tracked
-		s.regs[i] = c03SliceV(hi.I - lo.I)
+		res := c03SliceV(hi.I - lo.I)
+		switch {
+		case isArr && xv.K == c03Cell:
+			res.Ref, res.Off = xv.Ref, lo.I
+		case xv.K == c03Slice && xv.Ref != nil:
+			res.Ref, res.Off = xv.Ref, xv.Off+lo.I
+		}
+		if xv.K == c03Slice && xv.FillOK && lo.I >= xv.TailFrom && okN && hi.I <= n {
+			res.FillOK, res.Fill, res.TailFrom = true, xv.Fill, 0
+		} else if xv.K == c03Slice && xv.FillOK && lo.I == 0 && okN && hi.I <= n && hi.I > xv.TailFrom {
+			res.FillOK, res.Fill, res.TailFrom = true, xv.Fill, xv.TailFrom
+		}
+		s.regs[i] = res
 		return ""
 	}
 	s.regs[i] = c03V{K: c03Slice, I: -1, Taint: lo.Taint || hi.Taint || xv.Taint}
@@ -783,6 +1263,29 @@ func (x *c03Exec) slice(s *c03State, i *ssa.Slice) string {
 
 func c03BinOp(op token.Token, a, b c03V) (c03V, string) {
 	taint := a.Taint || b.Taint
+	if op == token.EQL || op == token.NEQ {
+		// a byte of the symbolic buffer compared with a known value
+		for _, pr := range [][2]c03V{{a, b}, {b, a}} {
+			if pr[0].K == c03Sym && pr[1].K == c03Int {
+				return c03V{Cmp: &c03Cmp{Lo: pr[0].I, Hi: pr[0].I + 1, Val: pr[1].I, Neg: op == token.NEQ}}, ""
+			}
+			if pr[0].Cmp != nil && pr[0].Cmp.AsInt && pr[1].K == c03Int && (pr[1].I == 0 || pr[1].I == 1) {
+				c := *pr[0].Cmp
+				c.AsInt = false
+				if (pr[1].I == 1) != (op == token.EQL) {
+					c.Neg = !c.Neg
+				}
+				return c03V{Cmp: &c}, ""
+			}
+			if pr[0].Cmp != nil && !pr[0].Cmp.AsInt && pr[1].K == c03Bool {
+				c := *pr[0].Cmp
+				if pr[1].B != (op == token.EQL) {
+					c.Neg = !c.Neg
+				}
+				return c03V{Cmp: &c}, ""
+			}
+		}
+	}
 	if a.K == c03Int && b.K == c03Int {
 		switch op {
 		case token.ADD:
@@ -862,8 +1365,8 @@ func c03BinOp(op token.Token, a, b c03V) (c03V, string) {
 			switch v.K {
 			case c03Nil:
 				return 1
-			case c03NonNil, c03Cell, c03FieldPtr:
-				return 2
+			case c03NonNil, c03Cell, c03FieldPtr, c03Struct, c03Slice, c03MapV, c03Int, c03Str, c03Bool, c03Sym:
+				return 2 // (scalars and structs only meet nil when boxed in an interface)
 			}
 			return 0
 		}
@@ -884,12 +1387,19 @@ func c03BinOp(op token.Token, a, b c03V) (c03V, string) {
 	return c03V{Taint: taint}, ""
 }
 
-// c03CalleeName gives "pkgpath.[Recv.]Name" for a call, "" if unresolvable.
-func c03CalleeName(c ssa.CallInstruction) string {
-	obj := calleeObj(c)
-	if obj == nil {
+// c03FuncName gives "pkgpath.[Recv.]Name" for a source function, "" for synthetic wrappers and closures.
+func c03FuncName(fn *ssa.Function) string {
+	if fn == nil || fn.Synthetic != "" && !strings.HasPrefix(fn.Synthetic, "instance of") && !strings.HasPrefix(fn.Synthetic, "package init") {
 		return ""
 	}
+	obj, ok := fn.Object().(*types.Func)
+	if !ok {
+		return ""
+	}
+	return c03ObjName(obj)
+}
+
+func c03ObjName(obj *types.Func) string {
 	pkg := ""
 	if obj.Pkg() != nil {
 		pkg = obj.Pkg().Path()
@@ -901,58 +1411,120 @@ func c03CalleeName(c ssa.CallInstruction) string {
 	return pkg + "." + obj.Name()
 }
 
-// call handles a call instruction. cont=true: the value was bound and the
-// path continues at the next instruction; otherwise (next, out) are the
-// successor states / the outcome.
-func (x *c03Exec) call(fn *ssa.Function, s *c03State, i *ssa.Call) (next []*c03State, out []c03Outcome, cont bool) {
-	cc := i.Common()
+// c03CalleeName gives "pkgpath.[Recv.]Name" for a call, "" if unresolvable.
+func c03CalleeName(c ssa.CallInstruction) string {
+	obj := calleeObj(c)
+	if obj == nil {
+		return ""
+	}
+	return c03ObjName(obj)
+}
+
+func (x *c03Exec) runnable(fn *ssa.Function) bool {
+	if fn == nil || len(fn.Blocks) == 0 {
+		return false
+	}
+	if x.p.InModule(fn) {
+		return true
+	}
+	return strings.Contains(fn.Synthetic, "wrapper") || strings.Contains(fn.Synthetic, "thunk")
+}
+
+// callOperands evaluates the function value (not for invokes / builtins) and the arguments of a call.
+func (x *c03Exec) callOperands(s *c03State, cc *ssa.CallCommon) (c03V, []c03V) {
+	var fnv c03V
 	var args []c03V
 	if cc.IsInvoke() {
 		args = append(args, x.eval(s, cc.Value))
+	} else if _, isB := cc.Value.(*ssa.Builtin); !isB {
+		fnv = x.eval(s, cc.Value)
 	}
 	for _, a := range cc.Args {
 		args = append(args, x.eval(s, a))
 	}
-	panicOut := func(msg string) []c03Outcome {
-		return []c03Outcome{{Panic: msg + " at " + x.p.Pos(instrPos(i)), Events: s.events, Imprecise: s.imprecise, Pos: instrPos(i)}}
+	return fnv, args
+}
+
+// call handles a call (or a deferred call being run). res = the register that
+// receives the result (nil: none). cont=true: the result was bound and the path
+// continues; otherwise (next, out) are the successor states (positioned at
+// instruction contIdx of the current block) / the outcomes.
+func (x *c03Exec) call(s *c03State, site ssa.CallInstruction, fnv c03V, args []c03V, res ssa.Value, contIdx int) (next []*c03State, out []c03Outcome, cont bool) {
+	cc := site.Common()
+	bind := func(st *c03State, v c03V) {
+		if res != nil {
+			st.regs[res] = v
+		}
 	}
-	if b := builtinName(i); b != "" {
-		v, msg := x.builtin(b, args)
+	panicOut := func(msg string) []c03Outcome {
+		return []c03Outcome{x.panicOutcome(s, msg, site)}
+	}
+	if b, ok := cc.Value.(*ssa.Builtin); ok && !cc.IsInvoke() {
+		v, msg := x.builtin(s, b.Name(), args)
 		if msg != "" {
 			return nil, panicOut(msg), false
 		}
-		s.regs[i] = v
+		bind(s, v)
 		return nil, nil, true
 	}
-	name := c03CalleeName(i)
+	// resolve the target
+	var callee *ssa.Function
+	var fv []c03V
+	name := ""
+	moduleIface := false
+	if cc.IsInvoke() {
+		name = c03ObjName(cc.Method)
+		if cc.Method.Pkg() != nil && strings.HasPrefix(cc.Method.Pkg().Path(), x.p.ModPath) {
+			moduleIface = true
+		}
+	} else {
+		callee = staticCallee(site)
+		if callee != nil {
+			fv = fnv.FV
+		} else if fnv.Fn != nil {
+			callee, fv = origin(fnv.Fn), fnv.FV
+		}
+		if callee == nil {
+			// the target of the call is not known on this path
+			s.imprecise = true
+			s.events = append(s.events, c03Event{Name: "opaque-call", Args: args})
+			x.havocArgs(s, args)
+			x.bindUnknown(s, cc, res, true)
+			return nil, nil, true
+		}
+		name = c03FuncName(callee)
+	}
 	if name != "" {
 		s.events = append(s.events, c03Event{Name: name, Args: args})
 	}
-	// a local whose address is handed to a call may be written by the callee
-	for _, a := range args {
-		if (a.K == c03Cell || a.K == c03FieldPtr) && a.Ref != nil {
-			s.mem[a.Ref] = c03U()
-		}
-	}
 	// in-module function replaced by a model for this scenario
-	if lf, ok := x.sc.Leaves[name]; ok {
+	if lf, ok := x.sc.Leaves[name]; ok && name != "" {
 		v, msg := lf(x, args)
 		if msg != "" {
 			return nil, panicOut(msg), false
 		}
-		s.regs[i] = v
+		bind(s, v)
 		return nil, nil, true
 	}
-	if v, msg, ok := x.model(s, i, name, args); ok {
-		if msg != "" {
-			return nil, panicOut(msg), false
+	if name != "" {
+		if v, msg, ok := x.model(s, name, args); ok {
+			if msg != "" {
+				return nil, panicOut(msg), false
+			}
+			bind(s, v)
+			return nil, nil, true
 		}
-		s.regs[i] = v
-		return nil, nil, true
 	}
-	callee := staticCallee(i)
-	if callee != nil && x.p.InModule(callee) && len(callee.Blocks) > 0 {
-		outs := x.Run(callee, args)
+	if cc.IsInvoke() && len(args) > 0 && args[0].Ty != nil {
+		if m := x.p.SSA.LookupMethod(args[0].Ty, cc.Method.Pkg(), cc.Method.Name()); m != nil && x.runnable(m) {
+			callee = origin(m)
+			if n2 := c03FuncName(callee); n2 != "" && n2 != name {
+				s.events = append(s.events, c03Event{Name: n2, Args: args})
+			}
+		}
+	}
+	if x.runnable(callee) {
+		outs := x.RunWith(callee, args, fv, c03Reach(s.mem, append(append([]c03V(nil), args...), fv...)))
 		for _, o := range outs {
 			if o.Panic != "" {
 				po := o
@@ -964,17 +1536,24 @@ func (x *c03Exec) call(fn *ssa.Function, s *c03State, i *ssa.Call) (next []*c03S
 			n := s.clone()
 			n.events = append(n.events, o.Events...)
 			n.imprecise = n.imprecise || o.Imprecise
-			if len(o.Res) == 1 {
-				n.regs[i] = o.Res[0]
-			} else {
-				n.regs[i] = c03TupleV(o.Res...)
+			for k, v := range o.Mem {
+				n.mem[k] = v
 			}
-			n.idx = s.idx + 1
+			if len(o.Res) == 1 {
+				bind(n, o.Res[0])
+			} else {
+				bind(n, c03TupleV(o.Res...))
+			}
+			n.idx = contIdx
 			next = append(next, n)
 		}
 		return next, out, false
 	}
-	// unmodelled external / dynamic call
+	// unmodelled external call / interface call whose implementation is unknown
+	if cc.IsInvoke() && moduleIface {
+		s.imprecise = true // the implementation is code of the module that was not followed
+	}
+	x.havocArgs(s, args)
 	taint := false
 	if !strings.HasPrefix(name, "crypto/") && !strings.HasPrefix(name, "golang.org/x/crypto/") {
 		for _, a := range args {
@@ -983,23 +1562,106 @@ func (x *c03Exec) call(fn *ssa.Function, s *c03State, i *ssa.Call) (next []*c03S
 			}
 		}
 	}
-	res := cc.Signature().Results()
-	switch res.Len() {
-	case 0:
-		s.regs[i] = c03U()
-	case 1:
-		s.regs[i] = c03V{Taint: taint}
-	default:
-		t := make([]c03V, res.Len())
-		for k := range t {
-			t[k] = c03V{Taint: taint}
-		}
-		s.regs[i] = c03TupleV(t...)
-	}
+	x.bindUnknown(s, cc, res, taint)
 	return nil, nil, true
 }
 
-func (x *c03Exec) builtin(name string, args []c03V) (c03V, string) {
+func (x *c03Exec) havocArgs(s *c03State, args []c03V) {
+	for _, a := range args {
+		switch {
+		case a.K == c03Cell && a.Ref != nil:
+			if _, isG := a.Ref.(*ssa.Global); !isG {
+				s.mem[a.Ref] = c03U()
+			}
+		case a.K == c03FieldPtr && a.Ref != nil:
+			s.mem[a.Ref] = c03SetPath(s.mem[a.Ref], a.Path, c03U())
+		case a.K == c03Slice && a.Ref != nil:
+			if cur, ok := s.mem[a.Ref]; ok && cur.K == c03Struct {
+				if _, sym := cur.M["#sym"]; sym {
+					if n, ok := c03Len(a); ok {
+						s.events = append(s.events, c03Event{Name: "readbytes", Args: []c03V{c03IntV(a.Off), c03IntV(a.Off + n), c03BoolV(true)}})
+					}
+					continue
+				}
+			}
+			s.havocElems(a.Ref)
+		}
+	}
+}
+
+func (x *c03Exec) bindUnknown(s *c03State, cc *ssa.CallCommon, res ssa.Value, taint bool) {
+	if res == nil {
+		return
+	}
+	r := cc.Signature().Results()
+	switch r.Len() {
+	case 0:
+		s.regs[res] = c03U()
+	case 1:
+		s.regs[res] = c03V{Taint: taint}
+	default:
+		t := make([]c03V, r.Len())
+		for k := range t {
+			t[k] = c03V{Taint: taint}
+		}
+		s.regs[res] = c03TupleV(t...)
+	}
+}
+
+// symRange: v is a slice of the scenario's symbolic buffer: its byte range.
+func (x *c03Exec) symRange(s *c03State, v c03V) (lo, hi int64, ok bool) {
+	if v.K != c03Slice || v.Ref == nil || v.I < 0 {
+		return 0, 0, false
+	}
+	cur, have := s.mem[v.Ref]
+	if !have || cur.K != c03Struct {
+		return 0, 0, false
+	}
+	if _, sym := cur.M["#sym"]; !sym {
+		return 0, 0, false
+	}
+	return v.Off, v.Off + v.I, true
+}
+
+// symCompare: one operand is a range of the symbolic buffer, the other a slice
+// filled with one known value: the result is an undecided comparison of those
+// bytes. Any other use of a range of the symbolic buffer is recorded as a read.
+func (x *c03Exec) symCompare(s *c03State, a, b c03V, asInt bool) (c03V, bool) {
+	for _, pr := range [][2]c03V{{a, b}, {b, a}} {
+		lo, hi, ok := x.symRange(s, pr[0])
+		if !ok {
+			continue
+		}
+		o := pr[1]
+		if o.K == c03Slice && o.FillOK && o.TailFrom == 0 && o.I == hi-lo {
+			return c03V{Cmp: &c03Cmp{Lo: lo, Hi: hi, Val: o.Fill, AsInt: asInt}}, true
+		}
+		s.events = append(s.events, c03Event{Name: "readbytes", Args: []c03V{c03IntV(lo), c03IntV(hi), c03BoolV(true)}})
+	}
+	return c03U(), false
+}
+
+// elemsOf returns the known elements of a slice backed by a known store.
+func (x *c03Exec) elemsOf(s *c03State, v c03V) ([]c03V, bool) {
+	if v.K == c03Nil {
+		return nil, true
+	}
+	if v.K != c03Slice || v.Ref == nil || v.I < 0 {
+		return nil, false
+	}
+	cur := s.mem[v.Ref]
+	var out []c03V
+	for k := int64(0); k < v.I; k++ {
+		e, ok := c03GetPath(cur, []string{fmt.Sprintf("#%d", v.Off+k)})
+		if !ok {
+			return nil, false
+		}
+		out = append(out, e)
+	}
+	return out, true
+}
+
+func (x *c03Exec) builtin(s *c03State, name string, args []c03V) (c03V, string) {
 	switch name {
 	case "len":
 		if len(args) == 1 {
@@ -1015,7 +1677,30 @@ func (x *c03Exec) builtin(name string, args []c03V) (c03V, string) {
 			a, okA := c03Len(args[0])
 			b, okB := c03Len(args[1])
 			if okA && okB {
-				return c03SliceV(a + b), ""
+				r := c03SliceV(a + b)
+				for _, part := range args {
+					if len(part.Segs) > 0 {
+						r.Segs = append(r.Segs[:len(r.Segs):len(r.Segs)], part.Segs...)
+					} else if n, _ := c03Len(part); n > 0 {
+						r.Segs = append(r.Segs[:len(r.Segs):len(r.Segs)], n)
+					}
+				}
+				if e0, ok0 := x.elemsOf(s, args[0]); ok0 {
+					if e1, ok1 := x.elemsOf(s, args[1]); ok1 && len(e0)+len(e1) > 0 {
+						// both operands have known elements: so has the result (in a fresh store)
+						m := map[string]c03V{}
+						for k, e := range append(append([]c03V(nil), e0...), e1...) {
+							m[fmt.Sprintf("#%d", k)] = e
+						}
+						key := c03NewStore()
+						s.mem[key] = c03V{K: c03Struct, M: m}
+						r.Ref = key
+					}
+				}
+				if args[1].FillOK && args[1].TailFrom == 0 {
+					r.FillOK, r.Fill, r.TailFrom = true, args[1].Fill, a
+				}
+				return r, ""
 			}
 			return c03V{K: c03Slice, I: -1, Taint: args[0].Taint || args[1].Taint}, ""
 		}
@@ -1023,6 +1708,9 @@ func (x *c03Exec) builtin(name string, args []c03V) (c03V, string) {
 			return args[0], ""
 		}
 	case "copy":
+		if len(args) == 2 && args[0].K == c03Slice && args[0].Ref != nil {
+			s.havocElems(args[0].Ref)
+		}
 		if len(args) == 2 {
 			a, okA := c03Len(args[0])
 			b, okB := c03Len(args[1])
@@ -1056,7 +1744,7 @@ func c03KnownLen(v c03V) int64 {
 // model: abstract behaviour of the standard-library / third-party functions
 // the crypto packages build on. Returns ok=false if there is no model.
 // Documented contracts relied on are listed in r.Assumptions by the caller.
-func (x *c03Exec) model(s *c03State, i *ssa.Call, name string, args []c03V) (c03V, string, bool) {
+func (x *c03Exec) model(s *c03State, name string, args []c03V) (c03V, string, bool) {
 	arg := func(k int) c03V {
 		if k < len(args) {
 			return args[k]
@@ -1134,7 +1822,19 @@ func (x *c03Exec) model(s *c03State, i *ssa.Call, name string, args []c03V) (c03
 			return c03TupleV(c03NilV(), c03NonNilV()), "", true
 		}
 		return c03TupleV(c03U(), c03U()), "", true
-	case "errors.New", "fmt.Errorf":
+	case "errors.New":
+		return c03NonNilV(), "", true
+	case "fmt.Errorf":
+		// %w keeps the identity of the wrapped sentinel as far as errors.Is is concerned
+		if f := arg(0); f.K == c03Str && strings.Count(f.S, "%w") == 1 {
+			if es, ok := x.elemsOf(s, arg(1)); ok {
+				for _, e := range es {
+					if e.K == c03NonNil && e.G != "" && !strings.HasPrefix(e.G, "func:") && !strings.HasPrefix(e.G, "hash:") {
+						return c03V{K: c03NonNil, G: e.G}, "", true
+					}
+				}
+			}
+		}
 		return c03NonNilV(), "", true
 	case "errors.Is":
 		a, b := arg(0), arg(1)
@@ -1145,22 +1845,36 @@ func (x *c03Exec) model(s *c03State, i *ssa.Call, name string, args []c03V) (c03
 			return c03BoolV(true), "", true
 		}
 		return c03U(), "", true
-	case "crypto/hmac.Equal":
+	case "crypto/hmac.Equal", "bytes.Equal", "crypto/subtle.ConstantTimeCompare", "slices.Equal":
+		asInt := name == "crypto/subtle.ConstantTimeCompare"
+		no := c03BoolV(false)
+		if asInt {
+			no = c03IntV(0)
+		}
 		a, b := c03KnownLen(arg(0)), c03KnownLen(arg(1))
 		if x.sc.Fail || (a >= 0 && b >= 0 && a != b) {
-			return c03BoolV(false), "", true
+			return no, "", true
+		}
+		if v, ok := x.symCompare(s, arg(0), arg(1), asInt); ok {
+			return v, "", true
 		}
 		return c03U(), "", true
-	case "crypto/subtle.ConstantTimeCompare":
-		a, b := c03KnownLen(arg(0)), c03KnownLen(arg(1))
-		if x.sc.Fail || (a >= 0 && b >= 0 && a != b) {
-			return c03IntV(0), "", true
-		}
-		return c03U(), "", true
-	case "bytes.Equal":
-		a, b := c03KnownLen(arg(0)), c03KnownLen(arg(1))
-		if x.sc.Fail || (a >= 0 && b >= 0 && a != b) {
-			return c03BoolV(false), "", true
+	case "bytes.HasSuffix", "bytes.HasPrefix":
+		if lo, hi, ok := x.symRange(s, arg(0)); ok {
+			if m := c03KnownLen(arg(1)); m >= 0 {
+				if m > hi-lo {
+					return c03BoolV(false), "", true
+				}
+				part := arg(0)
+				if name == "bytes.HasSuffix" {
+					part.Off, part.I = hi-m, m
+				} else {
+					part.I = m
+				}
+				if v, ok := x.symCompare(s, part, arg(1), false); ok {
+					return v, "", true
+				}
+			}
 		}
 		return c03U(), "", true
 	case "bytes.Repeat":
@@ -1169,14 +1883,33 @@ func (x *c03Exec) model(s *c03State, i *ssa.Call, name string, args []c03V) (c03
 			if n.I < 0 {
 				return c03U(), "bytes.Repeat panics: negative count", true
 			}
-			return c03SliceV(a * n.I), "", true
+			r := c03SliceV(a * n.I)
+			if a == 1 {
+				if es, ok := x.elemsOf(s, arg(0)); ok && len(es) == 1 && es[0].K == c03Int {
+					r.FillOK, r.Fill = true, es[0].I
+				}
+			}
+			return r, "", true
 		}
 		return c03SliceV(-1), "", true
 	case "crypto.Hash.New":
 		if h := arg(0); h.K == c03Int && (h.I <= 0 || h.I > 19) {
 			return c03U(), fmt.Sprintf("crypto.Hash(%d).New panics: requested hash function is unavailable", h.I), true
 		}
+		if h := arg(0); h.K == c03Int {
+			return c03V{K: c03NonNil, G: fmt.Sprintf("hash:%d", h.I)}, "", true
+		}
 		return c03NonNilV(), "", true
+	case "crypto/sha1.New":
+		return c03V{K: c03NonNil, G: "hash:3"}, "", true
+	case "crypto/sha256.New224":
+		return c03V{K: c03NonNil, G: "hash:4"}, "", true
+	case "crypto/sha256.New":
+		return c03V{K: c03NonNil, G: "hash:5"}, "", true
+	case "crypto/sha512.New384":
+		return c03V{K: c03NonNil, G: "hash:6"}, "", true
+	case "crypto/sha512.New":
+		return c03V{K: c03NonNil, G: "hash:7"}, "", true
 	case "crypto/hmac.New":
 		return c03NonNilV(), "", true
 	case "crypto/rsa.DecryptPKCS1v15", "crypto/rsa.DecryptOAEP":
@@ -1214,9 +1947,226 @@ func (x *c03Exec) model(s *c03State, i *ssa.Call, name string, args []c03V) (c03
 					return c03NilV(), "", true
 				}
 				s.mem[c.Ref] = c03SliceV(-1)
+			} else {
+				s.mem[c.Ref] = c03U() // the key object fills in the caller's struct
 			}
 		}
 		return c03U(), "", true
+	case "crypto/rsa.PrivateKey.Decrypt", "crypto/rsa.PrivateKey.Sign", "crypto/ecdsa.PrivateKey.Sign", "crypto/ed25519.PrivateKey.Sign":
+		// crypto.Decrypter / crypto.Signer forms of the package-level primitives: re-expressed as the
+		// canonical primitive event so that the rules see one vocabulary
+		opts := arg(3)
+		ty := ""
+		if opts.Ty != nil {
+			ty = opts.Ty.String()
+		}
+		var om map[string]c03V
+		if opts.K == c03Cell {
+			if st, ok := s.mem[opts.Ref]; ok && st.K == c03Struct {
+				om = st.M
+			}
+		}
+		hashOf := func(v c03V) c03V {
+			if v.K == c03Int {
+				return c03V{K: c03NonNil, G: fmt.Sprintf("hash:%d", v.I)}
+			}
+			return c03U()
+		}
+		canon := func(n string, a ...c03V) {
+			// the original event is kept under a neutral name: the call is understood
+			if k := len(s.events) - 1; k >= 0 && s.events[k].Name == name {
+				s.events[k].Name = "as:" + name
+			}
+			s.events = append(s.events, c03Event{Name: n, Args: a})
+		}
+		switch {
+		case name == "crypto/rsa.PrivateKey.Decrypt" && (opts.K == c03Nil || ty == "*crypto/rsa.PKCS1v15DecryptOptions"):
+			canon("crypto/rsa.DecryptPKCS1v15", arg(1), arg(0), arg(2))
+		case name == "crypto/rsa.PrivateKey.Decrypt" && ty == "*crypto/rsa.OAEPOptions" && om != nil:
+			canon("crypto/rsa.DecryptOAEP", hashOf(om["Hash"]), arg(1), arg(0), arg(2), om["Label"])
+		case name == "crypto/rsa.PrivateKey.Sign" && ty == "crypto.Hash":
+			canon("crypto/rsa.SignPKCS1v15", arg(1), arg(0), c03V{K: opts.K, I: opts.I}, arg(2))
+		case name == "crypto/rsa.PrivateKey.Sign" && ty == "*crypto/rsa.PSSOptions" && om != nil:
+			canon("crypto/rsa.SignPSS", arg(1), arg(0), om["Hash"], arg(2), opts)
+		case name == "crypto/ecdsa.PrivateKey.Sign":
+			canon("crypto/ecdsa.SignASN1", arg(1), arg(0), arg(2))
+		case name == "crypto/ed25519.PrivateKey.Sign" && (ty == "crypto.Hash" && opts.K == c03Int && opts.I == 0 || ty == "*crypto/ed25519.Options" && om != nil && om["Hash"].K == c03Int && om["Hash"].I == 0):
+			canon("crypto/ed25519.Sign", arg(0), arg(2))
+			return c03TupleV(c03SliceV(64), c03U()), "", true
+		default:
+			return c03U(), "", false
+		}
+		if name == "crypto/rsa.PrivateKey.Decrypt" && x.sc.Fail {
+			return c03TupleV(c03NilV(), c03NonNilV()), "", true
+		}
+		return c03TupleV(c03SliceV(-1), c03U()), "", true
+	case "crypto/cipher.NewGCMWithNonceSize", "crypto/cipher.NewGCMWithTagSize":
+		want := int64(12)
+		if strings.HasSuffix(name, "TagSize") {
+			want = 16
+		}
+		if n := arg(1); n.K == c03Int && n.I == want {
+			if k := len(s.events) - 1; k >= 0 && s.events[k].Name == name {
+				s.events[k].Name = "as:" + name
+			}
+			s.events = append(s.events, c03Event{Name: "crypto/cipher.NewGCM", Args: args[:1]})
+			return c03TupleV(c03NonNilV(), c03NilV()), "", true
+		}
+		return c03U(), "", false
+	case "bytes.Clone", "slices.Clone":
+		if a := arg(0); a.K == c03Slice || a.K == c03Nil {
+			r := a
+			r.Ref, r.Off = nil, 0
+			if es, ok := x.elemsOf(s, a); ok && a.K == c03Slice {
+				// a copy with the same known elements
+				m := map[string]c03V{}
+				for k, e := range es {
+					m[fmt.Sprintf("#%d", k)] = e
+				}
+				key := c03NewStore()
+				s.mem[key] = c03V{K: c03Struct, M: m}
+				r.Ref = key
+			}
+			return r, "", true
+		}
+		return c03U(), "", true
+	case "slices.Concat":
+		// variadic: one argument, the slice of slices
+		if es, ok := x.elemsOf(s, arg(0)); ok {
+			var n int64
+			for _, e := range es {
+				k, ok := c03Len(e)
+				if !ok {
+					return c03SliceV(-1), "", true
+				}
+				n += k
+			}
+			return c03SliceV(n), "", true
+		}
+		return c03SliceV(-1), "", true
+	case "slices.Contains", "slices.Index":
+		if es, ok := x.elemsOf(s, arg(0)); ok {
+			v := arg(1)
+			allKnown := v.K == c03Str || v.K == c03Int
+			idx := int64(-1)
+			for k, e := range es {
+				if e.K != v.K {
+					allKnown = false
+					break
+				}
+				if idx < 0 && ((v.K == c03Str && e.S == v.S) || (v.K == c03Int && e.I == v.I)) {
+					idx = int64(k)
+				}
+			}
+			if allKnown {
+				if name == "slices.Contains" {
+					return c03BoolV(idx >= 0), "", true
+				}
+				return c03IntV(idx), "", true
+			}
+		}
+		return c03TaintedU(), "", true
+	case "strings.TrimPrefix", "strings.TrimSuffix", "strings.ToUpper", "strings.ToLower", "strings.TrimSpace":
+		a, b := arg(0), arg(1)
+		if a.K == c03Str && (b.K == c03Str || len(args) == 1) {
+			switch name {
+			case "strings.TrimPrefix":
+				return c03StrV(strings.TrimPrefix(a.S, b.S)), "", true
+			case "strings.TrimSuffix":
+				return c03StrV(strings.TrimSuffix(a.S, b.S)), "", true
+			case "strings.ToUpper":
+				return c03StrV(strings.ToUpper(a.S)), "", true
+			case "strings.ToLower":
+				return c03StrV(strings.ToLower(a.S)), "", true
+			default:
+				return c03StrV(strings.TrimSpace(a.S)), "", true
+			}
+		}
+		return c03TaintedU(), "", true
+	case "strings.Index", "strings.LastIndex":
+		a, b := arg(0), arg(1)
+		if a.K == c03Str && b.K == c03Str {
+			if name == "strings.Index" {
+				return c03IntV(int64(strings.Index(a.S, b.S))), "", true
+			}
+			return c03IntV(int64(strings.LastIndex(a.S, b.S))), "", true
+		}
+		return c03TaintedU(), "", true
+	case "strings.Cut":
+		a, b := arg(0), arg(1)
+		if a.K == c03Str && b.K == c03Str {
+			x1, x2, ok := strings.Cut(a.S, b.S)
+			return c03TupleV(c03StrV(x1), c03StrV(x2), c03BoolV(ok)), "", true
+		}
+		return c03TupleV(c03TaintedU(), c03TaintedU(), c03TaintedU()), "", true
+	case "bytes.Buffer.Write", "bytes.Buffer.WriteString", "bytes.Buffer.WriteByte", "bytes.Buffer.Bytes", "bytes.Buffer.Len", "bytes.Buffer.Grow", "bytes.Buffer.Reset", "bytes.NewBuffer":
+		// a bytes.Buffer used as an append-only accumulator: its length and the pieces written
+		if name == "bytes.NewBuffer" {
+			st := c03NewStore()
+			n, ok := c03Len(arg(0))
+			if !ok {
+				return c03U(), "", false
+			}
+			acc := c03SliceV(n)
+			if n > 0 {
+				acc.Segs = []int64{n}
+			}
+			s.mem[st] = c03V{K: c03Struct, M: map[string]c03V{"#acc": acc}}
+			return c03V{K: c03Cell, Ref: st}, "", true
+		}
+		recv := arg(0)
+		if recv.K != c03Cell || recv.Ref == nil {
+			return c03U(), "", false
+		}
+		cur := s.mem[recv.Ref]
+		acc, have := c03SliceV(0), false
+		if cur.K == c03Struct {
+			acc, have = cur.M["#acc"], true
+			if acc.K != c03Slice {
+				acc = c03SliceV(0)
+				if _, touched := cur.M["#touched"]; touched {
+					have = false
+				}
+			}
+		}
+		if !have {
+			return c03U(), "", false
+		}
+		put := func(a c03V) { s.mem[recv.Ref] = c03SetPath(cur, []string{"#acc"}, a) }
+		switch name {
+		case "bytes.Buffer.Write", "bytes.Buffer.WriteString", "bytes.Buffer.WriteByte":
+			n := int64(1)
+			if name != "bytes.Buffer.WriteByte" {
+				k, ok := c03Len(arg(1))
+				if !ok {
+					s.mem[recv.Ref] = c03SetPath(cur, []string{"#touched"}, c03BoolV(true))
+					s.mem[recv.Ref] = c03SetPath(s.mem[recv.Ref], []string{"#acc"}, c03U())
+					return c03TupleV(c03U(), c03NilV()), "", true
+				}
+				n = k
+			}
+			acc.I += n
+			if n > 0 {
+				if segs := arg(1).Segs; len(segs) > 0 && name == "bytes.Buffer.Write" {
+					acc.Segs = append(acc.Segs[:len(acc.Segs):len(acc.Segs)], segs...)
+				} else {
+					acc.Segs = append(acc.Segs[:len(acc.Segs):len(acc.Segs)], n)
+				}
+			}
+			put(acc)
+			if name == "bytes.Buffer.WriteByte" {
+				return c03NilV(), "", true
+			}
+			return c03TupleV(c03IntV(n), c03NilV()), "", true
+		case "bytes.Buffer.Bytes":
+			return acc, "", true
+		case "bytes.Buffer.Len":
+			return c03IntV(acc.I), "", true
+		case "bytes.Buffer.Reset":
+			put(c03SliceV(0))
+			return c03U(), "", true
+		}
+		return c03U(), "", true // Grow
 	case "strconv.Atoi":
 		if a := arg(0); a.K == c03Str {
 			if n, err := strconv.Atoi(a.S); err == nil {
